@@ -1,6 +1,7 @@
 package main
 
 import (
+	"runtime"
 	"bytes"
 	"crypto/sha256"
 	"fmt"
@@ -128,7 +129,7 @@ func c06Replay(c *Ctx) {
 		nAttempts := 1 + r.IntN(4)
 		attempts := make([]c06Attempt, nAttempts)
 		for k := range attempts {
-			a := c06Attempt{Poison: r.IntN(128), Close: r.IntN(2) == 0, How: r.IntN(3)}
+			a := c06Attempt{Poison: r.IntN(256), Close: r.IntN(2) == 0, How: r.IntN(3)}
 			switch r.IntN(3) {
 			case 0:
 				a.Read = 0
@@ -141,6 +142,8 @@ func c06Replay(c *Ctx) {
 		}
 		attempts[nAttempts-1].Read = -1
 		var mu sync.Mutex
+		var stragglers sync.WaitGroup
+		defer stragglers.Wait()
 		var seen []c06Seen
 		h := http.HandlerFunc(func(w http.ResponseWriter, req *http.Request) {
 			mu.Lock()
@@ -200,7 +203,20 @@ func c06Replay(c *Ctx) {
 					v[0] = "REDACTED"
 				}
 			}
-			if a.Close {
+			if a.Poison&128 != 0 && k < nAttempts-1 {
+				// something keeps the failed attempt's body and goes on reading it after the attempt has returned
+				stragglers.Add(1)
+				go func(b io.Reader) {
+					defer stragglers.Done()
+					buf := make([]byte, 777)
+					for q := 0; q < 200; q++ {
+						if _, err := b.Read(buf); err != nil {
+							return
+						}
+						runtime.Gosched()
+					}
+				}(req.Body)
+			} else if a.Close {
 				_ = req.Body.Close()
 			}
 			mu.Lock()
